@@ -19,6 +19,7 @@ from __future__ import annotations
 
 import base64
 import json
+import re
 import time
 from collections import Counter
 from typing import Any
@@ -33,7 +34,7 @@ OBS_ENV = {"VERIF_OBS_EXTRA": "harness.obs_wire,harness.obs_c05"}
 CLAUSES = ["C05.raised", "C05.none_expected", "C05.value", "C05.kind", "C05.text", "C05.bytes", "C05.stream_items", "C05.stream_order"]
 
 HOLDING = ["TypeOK", "MachineIsModel", "SelectionsAgree", "SelectionIsDocumented", "JudgeAgrees", "NoContentIsNone", "PrimaryJsonHolds", "StreamsKeepOrder"]
-ACTIONS_AS_IS = ["SelectSignature", "SelectHandler", "CasePrimary", "CaseSecondary", "CaseDefault", "ReturnNone", "StreamBytes", "StreamSseJson", "ContentTypeSwitch", "StructureJson", "CastJson", "Judge"]
+ACTIONS_AS_IS = ["SelectSignature", "SelectHandler", "LoadFails", "CasePrimary", "CaseSecondary", "CaseDefault", "ReturnNone", "StreamBytes", "StreamSseJson", "ContentTypeSwitch", "StructureJson", "CastJson", "Judge"]
 ACTIONS_FIXED = ["SelectSignature", "SelectHandler", "CasePrimary", "ReturnNone", "StreamBytes", "StreamSseJson", "ContentTypeSwitch", "StructureJson", "CastJson", "ReturnText", "StreamRecords", "Judge"]
 
 R = features.ref
@@ -141,7 +142,9 @@ def operation(sc: dict, idx: int) -> dict:
         if c:
             r["content"] = c
         resp[st] = r
-    return {"operationId": f"op{idx}", "tags": ["t"], "responses": resp}
+    # every scenario is its own tag = its own emitted endpoint module (own imports): scenarios of one package share
+    # nothing but the models and the core
+    return {"operationId": f"op{idx}", "tags": [f"t{idx}"], "responses": resp}
 
 
 def document(scs: list[tuple[int, dict]]) -> dict:
@@ -187,7 +190,7 @@ def got_of(oc: dict) -> dict:
     elif oc["kind"] == "return":
         g["pykind"] = oc["pykind"]
         g["pyclass"] = "model" if oc["pykind"].startswith("model:") else oc["pykind"]
-        g["tree"] = to_tree(oc["value"])
+        g["tree"] = to_tree(oc["value"]) if oc["pykind"] != "none" else NOTREE
     else:
         g["items"] = [to_tree(x) for x in oc["items"]]
         kinds = list(oc.get("pykinds", []))
@@ -232,10 +235,52 @@ def fkey(clause: str, locus: dict[str, Any]) -> str:
     return json.dumps([clause, clean_locus(locus)], sort_keys=True)
 
 
-def design(chk: Check, maxdecl: int, level: int) -> Counter:
+class _Sub:
+    """private scratch numbering for the design runs (they run in a thread next to generation / observation)"""
+
+    def __init__(self, base) -> None:
+        self.path = base
+        self.path.mkdir(parents=True, exist_ok=True)
+        self._n = 0
+
+    def sub(self, name: str):
+        self._n += 1
+        p = self.path / f"{self._n:03d}_{name}"
+        p.mkdir(parents=True)
+        return p
+
+
+class _Rec:
+    """what design() would have told the Check; applied by the main thread afterwards"""
+
+    def __init__(self, base) -> None:
+        self.scratch = _Sub(base)
+        self.tlc: list = []
+        self.fails: list = []
+        self.cov: dict = {}
+
+    def add_tlc(self, name, r) -> None:
+        self.tlc.append((name, r))
+
+    def fail(self, *a) -> None:
+        self.fails.append(a)
+
+    def require(self, cond: bool, msg: str) -> None:
+        if not cond:
+            raise core.MachineryError(msg)
+
+    def apply(self, chk: Check) -> None:
+        for name, r in self.tlc:
+            chk.add_tlc(name, r)
+        for a in self.fails:
+            chk.fail(*a)
+        chk.cov.update(self.cov)
+
+
+def design(chk: Any, maxdecl: int, level: int) -> Counter:
     """Returns the specification-level counterexamples of the as-is design: (clause, locus) -> number of (scenario, body)."""
     dev: Counter = Counter()
-    r = run_tlc(chk.scratch, "MC_Reply", design_cfg("as_is", maxdecl, level, True, HOLDING), coverage=True, allow_violation=True, timeout=1200)
+    r = run_tlc(chk.scratch, "MC_Reply", design_cfg("as_is", maxdecl, level, True, HOLDING), coverage=True, allow_violation=True, timeout=1200, workers=8)
     chk.add_tlc(f"MC_Reply[as_is,MaxDecl={maxdecl},Level={level}]", r)
     if r.violated:
         chk.fail("C05.design_invariant", {"invariant": r.violated[0], "variant": "as_is"}, {"variant": "as_is"}, r.out[-1500:])
@@ -253,7 +298,7 @@ def design(chk: Check, maxdecl: int, level: int) -> Counter:
     chk.cov["design_counterexample_classes"] = len(dev)
     chk.cov["design_counterexamples"] = [{"clause": json.loads(k)[0], "locus": json.loads(k)[1], "n": n, "first": first[k]} for k, n in sorted(dev.items())][:200]
     # the reference is satisfiable
-    r = run_tlc(chk.scratch, "MC_Reply", design_cfg("fixed", maxdecl, level, False, ["TypeOK", "MachineIsModel", "JudgeAgrees", "Property"]), coverage=True, allow_violation=True, timeout=1200)
+    r = run_tlc(chk.scratch, "MC_Reply", design_cfg("fixed", maxdecl, level, False, ["TypeOK", "MachineIsModel", "JudgeAgrees", "Property"]), coverage=True, allow_violation=True, timeout=1200, workers=8)
     chk.add_tlc(f"MC_Reply[fixed,MaxDecl={maxdecl},Level={level}]", r)
     if r.violated:
         chk.fail("C05.design_invariant", {"invariant": r.violated[0], "variant": "fixed"}, {"variant": "fixed"}, r.out[-1500:])
@@ -285,7 +330,9 @@ def scenarios(chk: Check, maxdecl: int, level: int) -> list[dict]:
     for s in scen:
         s["others"] = sorted(s["others"])
         s["bodies"].sort(key=lambda b: json.dumps(b, sort_keys=True))
-    scen.sort(key=scen_key)
+    # homogeneous packages (same content kind / role / kind of neighbours): a defect that breaks a whole package then
+    # takes few innocent scenarios with it
+    scen.sort(key=lambda s: (s["c"], s["role"], [o for o in s["others"] if o != "204"] == [], s["sh"], scen_key(s)))
     chk.require(len({scen_key(s) for s in scen}) == len(scen), "Gen_Reply emitted a scenario twice")
     for i, s in enumerate(scen):
         s["id"] = f"s{i:04d}"
@@ -303,32 +350,34 @@ def _check_obs(o: dict, keys: list[str], what: str) -> None:
             raise core.MachineryError(f"observer {k} crashed on {what}: {v['observer_error']} {v.get('tb', '')[-400:]}")
 
 
-def generate_and_serve(chk: Check, scen: list[dict], label: str, pack: int) -> tuple[list[dict], list[dict]]:
-    """Returns (traces, unusable): one trace per scenario whose operation could be called; scenarios whose package
-    could not be generated / imported even alone are returned as `unusable` with the reason."""
+def _raise_got(exctype: str) -> dict:
+    return {"kind": "raise", "pykind": "", "pyclass": "", "tree": NOTREE, "items": [], "itemkinds": [], "cat": "", "exc": exctype}
+
+
+def generate_and_serve(chk: Check, scen: list[dict], label: str, pack: int) -> list[dict]:
+    """One trace per scenario.  Scenarios are packed `pack` per generated package (own path, own tag = own endpoint module
+    each).  A package that cannot be imported is split: operations whose endpoint module does not compile are re-generated
+    alone, the rest together; a scenario whose package cannot be generated / imported even ALONE gets a trace in which every
+    call "raises" that error (nothing can be called)."""
     root = chk.scratch.sub("gen_" + label)
-    groups: list[list[tuple[int, dict]]] = []
     indexed = list(enumerate(scen))
-    for i in range(0, len(indexed), pack):
-        groups.append(indexed[i : i + pack])
+    groups: list[list[tuple[int, dict]]] = [indexed[i : i + pack] for i in range(0, len(indexed), pack)]
     traces: list[dict] = []
-    unusable: list[dict] = []
     round_ = 0
-    helpers_done = False
     while groups:
         round_ += 1
         gjobs = [{"id": f"{label}r{round_}g{g}", "root": str(root), "spec": document(grp), "pkg": f"c05{label}r{round_}g{g}", "core": None, "force": True, "nopp": True} for g, grp in enumerate(groups)]
         t0 = time.time()
         gres = core.parallel_py(chk.scratch, "harness.w_gen", gjobs)
         chk.cov.setdefault("phase_wall_s", {})[f"generate[{label}#{round_}]"] = round(time.time() - t0, 2)
+        chk.cov["packages_generated"] = chk.cov.get("packages_generated", 0) + len(gjobs)
         ojobs = []
         for j, g, grp in zip(gjobs, gres, groups):
             if not g["ok"]:
                 continue
             entries = [e for idx, sc in grp for e in serve_entries(idx, sc)]
-            job = {"id": j["id"], "root": j["root"], "pkg": j["pkg"], "core": None, "want": ["import", "retkinds", "serve"], "serve": entries}
-            if not helpers_done:
-                helpers_done = True
+            job = {"id": j["id"], "root": j["root"], "pkg": j["pkg"], "core": None, "want": ["compile", "import", "retkinds", "serve_by_path"], "serve": entries}
+            if not _HELPER_OUTCOMES and not any("helpers" in x for x in ojobs):
                 job["want"].append("helpers")
                 job["helpers"] = [{"hid": h["id"], "fn": h["fn"], "chunks": h["chunks"]} for h in helper_cases(chk)]
             ojobs.append(job)
@@ -339,27 +388,38 @@ def generate_and_serve(chk: Check, scen: list[dict], label: str, pack: int) -> t
         retry: list[list[tuple[int, dict]]] = []
         for j, g, grp in zip(gjobs, gres, groups):
             reason = None
+            culprits: set[int] = set()
             o = ores.get(j["id"])
             if not g["ok"]:
-                reason = {"stage": "generate", "exctype": g["errtype"] or "", "msg": (g["err"] or "")[:200]}
+                reason = {"stage": "generate", "exctype": g["errtype"] or "Exception", "msg": (g["err"] or "")[:200]}
             else:
-                _check_obs(o, ["import"], j["id"])
+                _check_obs(o, ["compile", "import"], j["id"])
                 bad = [m for m in o["import"] if not m["ok"]]
                 if bad:
                     reason = {"stage": "import", "exctype": bad[0]["exc"]["type"], "msg": f"{bad[0]['m']}: {bad[0]['exc']['msg'][:160]}"}
+                    for e in o["compile"]["errors"]:
+                        m = re.search(r"endpoints/t(\d+)\.py$", e["file"])
+                        if m:
+                            culprits.add(int(m.group(1)))
             if reason is not None:
                 if len(grp) > 1:
-                    retry += [[x] for x in grp]  # find the culprit: every scenario alone
+                    rest = [x for x in grp if x[0] not in culprits]
+                    if culprits and rest:
+                        retry += [[x] for x in grp if x[0] in culprits] + [rest]
+                    else:
+                        retry += [[x] for x in grp]  # every scenario alone
                 else:
-                    unusable.append({"sc": grp[0][1], **reason})
+                    idx, sc = grp[0]
+                    ev = [{"body": b, "got": _raise_got(reason["exctype"]), "_msg": f"{reason['stage']} failed: {reason['msg']}"} for b in sc["bodies"]]
+                    traces.append({"id": sc["id"], "served": sc["served"], "others": sc["others"], "c": sc["c"], "sh": sc["sh"], "role": sc["role"], "via": "method", "ann": ["any"], "ev": ev, "_sc": sc, "_ret": "", "_unusable": reason["stage"]})
                 continue
-            _check_obs(o, ["retkinds", "serve"], j["id"])
+            _check_obs(o, ["retkinds", "serve_by_path"], j["id"])
             if "helpers" in o:
                 _check_obs(o, ["helpers"], j["id"])
                 _HELPER_OUTCOMES.update({h["hid"]: h["outcome"] for h in o["helpers"]})
             kinds = {(r["prop"], r["method"]): r for r in o["retkinds"]}
             by_sid: dict[str, dict] = {}
-            for rec in o["serve"]:
+            for rec in o["serve_by_path"]:
                 chk.require(rec["sid"] not in by_sid, f"{j['id']}: two methods answered for {rec['sid']}")
                 by_sid[rec["sid"]] = rec
             for idx, sc in grp:
@@ -376,10 +436,12 @@ def generate_and_serve(chk: Check, scen: list[dict], label: str, pack: int) -> t
                 if rk["kinds"] == ["unresolved"]:
                     chk.note_drift(f"return annotation of the method for scenario {sc['id']} cannot be evaluated ({rk['error']}); annotation clause not judged")
                     rk = {**rk, "kinds": ["any"]}
-                traces.append({"id": sc["id"], "served": sc["served"], "others": sc["others"], "c": sc["c"], "sh": sc["sh"], "role": sc["role"], "via": "method", "ann": rk["kinds"], "ev": ev, "_sc": sc, "_ret": by_sid[f"{idx}#0"]["ret"], "_nature": by_sid[f"{idx}#0"]["nature"]})
+                traces.append({"id": sc["id"], "served": sc["served"], "others": sc["others"], "c": sc["c"], "sh": sc["sh"], "role": sc["role"], "via": "method", "ann": rk["kinds"], "ev": ev, "_sc": sc, "_ret": by_sid[f"{idx}#0"]["ret"]})
         groups = retry
-        chk.require(round_ <= 3, "package splitting did not converge")
-    return traces, unusable
+        chk.require(round_ <= 4, "package splitting did not converge")
+    order = {s["id"]: i for i, s in enumerate(scen)}
+    traces.sort(key=lambda t: order[t["id"]])
+    return traces
 
 
 # --------------------------------------------------------------------------------------------
@@ -536,7 +598,7 @@ def account(chk: Check, traces: list[dict], vs: dict[str, dict], design_dev: Cou
             chk.sample({"declared": sc["decl"], "served": sc["served"], "status": sc["status"], "sent": sent(t["ev"][0]["body"]), "return_annotation": t["_ret"], "observed": brief(t["ev"][0]["got"])}, cap=8)
         for f in v["model_fails"]:
             model[fkey(f["clause"], f["locus"])] += f["n"]
-        if v["ann_drift"]:
+        if v["ann_drift"] and not t.get("_unusable"):
             if len([x for x in chk.drift if x.startswith("annotation")]) < 3:
                 chk.note_drift(f"annotation of scenario {scen_label(sc)} admits {t['ann']} but the as-is model says {sorted(sc['model_ann'])}")
         if v["ndrift"]:
@@ -559,6 +621,7 @@ def account(chk: Check, traces: list[dict], vs: dict[str, dict], design_dev: Cou
                 print("SENT     ", json.dumps(sent(e["body"])))
                 print("OUTCOME  ", json.dumps(brief(e["got"])), e.get("_msg", ""))
             print("VERDICT  ", json.dumps(v))
+    chk.cov.setdefault("failure_classes", []).extend({"clause": json.loads(k)[0], "locus": json.loads(k)[1], "bodies": n} for k, n in sorted(real.items()))
     if ndrift:
         chk.note_drift(f"{ndrift} call outcomes in total differ from the as-is model")
     chk.cov["calls_differing_from_model"] = chk.cov.get("calls_differing_from_model", 0) + ndrift
@@ -580,12 +643,6 @@ def scen_label(sc: dict) -> str:
     if "decl" not in sc:
         return json.dumps(sc)[:80]
     return "{" + ", ".join(f"{st}: {r['c']}" + (f"/{r['sh']}" if r["sh"] != "-" else "") for st, r in sorted(sc["decl"].items())) + f"}} served {sc['served']}"
-
-
-def report_unusable(chk: Check, unusable: list[dict]) -> None:
-    for u in unusable:
-        sc = u["sc"]
-        chk.fail("C05.raised", {"stage": u["stage"], "exctype": u["exctype"], "role": sc["role"], "shape": sc["sh"], "multi_content": sc["c"] == "json+text", "via": "method"}, {k: sc[k] for k in sc if k not in ("bodies", "id", "model_ann")}, f"no call possible: {u['stage']} failed: {u['msg']}")
 
 
 # --------------------------------------------------------------------------------------------
@@ -611,17 +668,24 @@ def run(chk: Check) -> None:
         "a `default` response is served (status 203) only where it is the only declared response and has content; next to explicit 2xx keys it is a filler",
         "a secondary 2xx response with its own schema must be admitted by the return annotation (the statement says 'a value of the annotated return type')",
     ]
-    dev = design(chk, maxdecl, level)
-    if any(f["clause"] == "C05.design_invariant" for f in chk.fails):
-        return
+    # (A) runs in a thread while (B) generates and observes; its accounting is applied here afterwards
+    import concurrent.futures
+
+    rec = _Rec(chk.scratch.path / "design")
+    pool = concurrent.futures.ThreadPoolExecutor(1)
+    fut = pool.submit(design, rec, maxdecl, level)
     scen = scenarios(chk, maxdecl, level)
     chk.cov["scenarios"] = len(scen)
     chk.cov["served_bodies"] = sum(len(s["bodies"]) for s in scen)
-    traces, unusable = generate_and_serve(chk, scen, "q" if not thorough else "t", PACK)
-    report_unusable(chk, unusable)
-    chk.cov["scenarios_unusable"] = len(unusable)
+    traces = generate_and_serve(chk, scen, "q" if not thorough else "t", PACK)
+    chk.cov["scenarios_whose_package_cannot_be_imported"] = sum(1 for t in traces if t.get("_unusable"))
     htr = helper_traces(chk)
     chk.require(len(htr) > 0, "the bundled stream helpers were not observed")
+    dev = fut.result()
+    pool.shutdown()
+    rec.apply(chk)
+    if any(f["clause"] == "C05.design_invariant" for f in chk.fails):
+        return
     t0 = time.time()
     vs = judge(chk, traces + htr, "all", negatives=True)
     chk.cov["phase_wall_s"]["judge"] = round(time.time() - t0, 2)
@@ -640,7 +704,7 @@ def replay(chk: Check, path: str) -> None:
     if "helper" in sc:
         print("helper-level failure; re-running the helper cases")
         scen = scenarios(chk, 1, 1)[:1]
-        traces, _ = generate_and_serve(chk, scen, "rp", 1)
+        generate_and_serve(chk, scen, "rp", 1)
         htr = [t for t in helper_traces(chk) if t["via"] == "helper:" + sc["helper"]]
         vs = judge(chk, htr, "replay", negatives=False)
         account(chk, htr, vs, None, verbose=True)
@@ -654,8 +718,7 @@ def replay(chk: Check, path: str) -> None:
     s["others"] = sorted(s["others"])
     s["bodies"] = [body] + [b for b in sorted(s["bodies"], key=lambda b: json.dumps(b, sort_keys=True)) if b != body]
     s["id"] = "replay"
-    traces, unusable = generate_and_serve(chk, [s], "rp", 1)
-    report_unusable(chk, unusable)
+    traces = generate_and_serve(chk, [s], "rp", 1)
     vs = judge(chk, traces, "replay", negatives=False)
     chk.cov["traces_validated_against_impl"] += len(traces)
     print("OPERATION", json.dumps(operation(s, 0)))
